@@ -13,7 +13,9 @@ Oracle (after every query): the returned value equals the value obtained from a 
 ``test_case.clone()`` (empty cache, no last execution result) with the same functions — the SUT is deterministic, so
 recomputation from scratch is the specification.  For ``get_is_covered`` the from-scratch value may be either
 ``compute_is_covered`` or "from-scratch fitness is 0" (the cache legitimately derives it from a fitness it has; whether the
-two agree is C10's subject).  No query on a registered function may raise.
+two agree is C10's subject).  No query on a registered function may raise.  Which functions are registered on a
+chromosome is the harness's own model (registered at construction, by ``add_*_function``, inherited by ``clone()``): before every
+query ``get_fitness_functions()`` / ``get_coverage_functions()`` must be exactly that list, and aggregates are recomputed with it.
 """
 
 from __future__ import annotations
@@ -79,6 +81,12 @@ def strategy(ctx) -> st.SearchStrategy:
         # query f, operator, clone, query f on the clone
         (2, st.tuples(st.just("tc_qmcq"), i, q, st.integers(0, 60), seed)),
         (2, st.tuples(st.just("s_qmcq"), i, q, st.integers(0, 3), seed)),
+        # clone, register a function on exactly ONE of the two, query aggregates + function list on the OTHER
+        (2, st.tuples(st.just("tc_caq"), i, st.integers(0, 1), st.integers(0, 60), st.integers(0, 1))),
+        (2, st.tuples(st.just("s_caq"), i, st.integers(0, 1), st.integers(0, 1), st.integers(0, 1))),
+        # DIRECT suite.cross_over(other live suite, p1, p2) (the public Chromosome API; SinglePointRelativeCrossOver passes
+        # clones), then mutate the receiver, then query the donor
+        (3, st.tuples(st.just("s_dxq"), i, i, st.integers(0, 5), st.integers(0, 5), q, st.integers(0, 3), seed)),
         (1, st.tuples(st.just("tc_clone"), i)),
         (1, st.tuples(st.just("tc_add_ff"), i, st.integers(0, 60))),
         (1, st.tuples(st.just("tc_add_cf"), i, st.integers(0, 1))),
@@ -150,6 +158,32 @@ def evaluate(case: dict[str, Any]) -> Outcome:  # noqa: C901, PLR0912, PLR0915
         def tr(c: Any) -> _Track:
             return track.setdefault(id(c), _Track())
 
+        # harness-side model of which functions were registered on which chromosome (never read back from pynguin,
+        # except right after construction of a brand-new chromosome)
+        reg: dict[int, tuple[list[Any], list[Any]]] = {}
+
+        def adopt(c: Any) -> None:
+            reg[id(c)] = (list(c.get_fitness_functions()), list(c.get_coverage_functions()))
+
+        def add_ff(c: Any, f: Any) -> None:
+            if not any(f is x for x in reg[id(c)][0]):
+                c.add_fitness_function(f)
+                reg[id(c)][0].append(f)
+
+        def add_cf(c: Any, f: Any) -> None:
+            if not any(f is x for x in reg[id(c)][1]):
+                c.add_coverage_function(f)
+                reg[id(c)][1].append(f)
+
+        def cloned(c: Any) -> Any:
+            n = c.clone()
+            reg[id(n)] = (list(reg[id(c)][0]), list(reg[id(c)][1]))
+            t0, t1 = tr(c), tr(n)
+            t1.last_op = "clone-after-" + t0.last_op
+            t1.code_changed_since_query = t0.code_changed_since_query
+            t1.queried = set(t0.queried)
+            return n
+
         def code_of(c: Any) -> str:
             if isinstance(c, tcc.TestCaseChromosome):
                 return c.test_case.to_code()
@@ -182,8 +216,14 @@ def evaluate(case: dict[str, Any]) -> Outcome:  # noqa: C901, PLR0912, PLR0915
         def query(level: str, c: Any, kind: str, k: int) -> None:
             nonlocal n_queries, nontrivial_hits
             fresh = fresh_tc if level == "tc" else fresh_suite
-            fit, cov = list(c.get_fitness_functions()), list(c.get_coverage_functions())
+            fit, cov = list(reg[id(c)][0]), list(reg[id(c)][1])
             t = tr(c)
+            for what, real, model in (("fitness", c.get_fitness_functions(), fit), ("coverage", c.get_coverage_functions(), cov)):
+                if [id(x) for x in real] != [id(x) for x in model]:
+                    out.fail(f"{level}|{what}-functions|list-differs-from-registered|last-op:{t.last_op}",
+                             f"get_{what}_functions() has {len(real)} entries {[type(x).__name__ for x in real][:8]}, "
+                             f"{len(model)} were registered on this chromosome")
+                    return
             if kind in ("fitness", "fitness_for", "is_covered"):
                 if not fit:
                     return
@@ -267,6 +307,7 @@ def evaluate(case: dict[str, Any]) -> Outcome:  # noqa: C901, PLR0912, PLR0915
                             c.add_fitness_function(f)
                 if op[1] % 3:
                     c.add_coverage_function(tc_cfs[op[1] % 2])
+                adopt(c)
                 tcs.append(c)
                 tr(c)
             elif name == "tc_seeded":
@@ -282,6 +323,7 @@ def evaluate(case: dict[str, Any]) -> Outcome:  # noqa: C901, PLR0912, PLR0915
                 for f in tc_ffs[:2 + op[1]]:
                     c.add_fitness_function(f)
                 c.add_coverage_function(tc_cfs[op[1] % 2])
+                adopt(c)
                 tcs.append(c)
                 tr(c).last_op = "seeded-without-sut-call" if op[1] != 3 else "seeded"
             elif name.startswith("tc_"):
@@ -306,27 +348,30 @@ def evaluate(case: dict[str, Any]) -> Outcome:  # noqa: C901, PLR0912, PLR0915
                     touched(c, "crossover", before)
                     touched(d, "crossover", before_d)
                 elif name == "tc_clone":
-                    n = c.clone()
-                    t0, t1 = tr(c), tr(n)
-                    t1.last_op = "clone-after-" + t0.last_op
-                    t1.code_changed_since_query = t0.code_changed_since_query
-                    t1.queried = set(t0.queried)
+                    tcs.append(cloned(c))
+                elif name == "tc_caq":
+                    n = cloned(c)
                     tcs.append(n)
+                    target, other = (n, c) if op[2] else (c, n)
+                    if tc_ffs:
+                        add_ff(target, tc_ffs[op[3] % len(tc_ffs)])
+                    add_cf(target, tc_cfs[op[4]])
+                    tr(other).last_op = "function-added-to-" + ("clone" if op[2] else "original-after-clone")
+                    query("tc", other, "fitness", 0)
+                    query("tc", other, "coverage", 0)
+                    query("tc", target, "fitness", 0)
                 elif name == "tc_add_ff":
                     if tc_ffs:
-                        f = tc_ffs[op[2] % len(tc_ffs)]
-                        if f not in c.get_fitness_functions():
-                            c.add_fitness_function(f)
+                        add_ff(c, tc_ffs[op[2] % len(tc_ffs)])
                 elif name == "tc_add_cf":
-                    f = tc_cfs[op[2]]
-                    if f not in c.get_coverage_functions():
-                        c.add_coverage_function(f)
+                    add_cf(c, tc_cfs[op[2]])
                 elif name == "tc_query":
                     query("tc", c, op[2], op[3])
             elif name == "s_new":
                 su = s.suite(fitness_functions=s_ffs[:1 + op[1] % 2], coverage_functions=s_cfs[:op[1] // 2 + 0])
                 for c in tcs[:op[1] + 1]:
                     su.add_test_case_chromosome(c.clone())
+                adopt(su)
                 suites.append(su)
                 tr(su)
             elif name.startswith("s_"):
@@ -350,12 +395,37 @@ def evaluate(case: dict[str, Any]) -> Outcome:  # noqa: C901, PLR0912, PLR0915
                     touched(su, "crossover", before)
                     touched(other, "crossover", before_o)
                 elif name == "s_clone":
-                    n = su.clone()
-                    t0, t1 = tr(su), tr(n)
-                    t1.last_op = "clone-after-" + t0.last_op
-                    t1.code_changed_since_query = t0.code_changed_since_query
-                    t1.queried = set(t0.queried)
+                    suites.append(cloned(su))
+                elif name == "s_caq":
+                    n = cloned(su)
                     suites.append(n)
+                    target, other = (n, su) if op[2] else (su, n)
+                    add_ff(target, s_ffs[op[3]])
+                    add_cf(target, s_cfs[op[4]])
+                    tr(other).last_op = "function-added-to-" + ("clone" if op[2] else "original-after-clone")
+                    query("suite", other, "fitness", 0)
+                    query("suite", other, "coverage", 0)
+                    query("suite", target, "fitness", 0)
+                elif name == "s_dxq":
+                    donor = suites[op[2] % len(suites)]
+                    if donor is su or donor.size() == 0:
+                        continue
+                    query("suite", donor, op[5], op[6])
+                    before_d = code_of(donor)
+                    su.cross_over(donor, op[3] % (su.size() + 1), op[4] % donor.size())
+                    touched(su, "direct-crossover", before)
+                    for extra in range(3):  # each member is mutated with probability 1/size
+                        if su.size() == 0:
+                            break
+                        b2 = code_of(su)
+                        s.seed_rng(op[7] + extra)
+                        su.mutate()
+                        touched(su, "mutate", b2)
+                    touched(donor, "donor-of-direct-crossover", before_d)
+                    query("suite", donor, op[5], op[6])
+                    query("suite", donor, "fitness", 0)
+                    query("suite", donor, "coverage", 0)
+                    query("suite", su, "fitness", 0)
                 elif name == "s_add_tc":
                     if tcs:
                         su.add_test_case_chromosome(tcs[op[2] % len(tcs)].clone())
@@ -369,13 +439,9 @@ def evaluate(case: dict[str, Any]) -> Outcome:  # noqa: C901, PLR0912, PLR0915
                         su.set_test_case_chromosome(op[2] % su.size(), tcs[op[3] % len(tcs)].clone())
                         touched(su, "set_test", before)
                 elif name == "s_add_ff":
-                    f = s_ffs[op[2]]
-                    if f not in su.get_fitness_functions():
-                        su.add_fitness_function(f)
+                    add_ff(su, s_ffs[op[2]])
                 elif name == "s_add_cf":
-                    f = s_cfs[op[2]]
-                    if f not in su.get_coverage_functions():
-                        su.add_coverage_function(f)
+                    add_cf(su, s_cfs[op[2]])
                 elif name == "s_query":
                     query("suite", su, op[2], op[3])
             out.labels.append("op:" + name)
